@@ -3,7 +3,8 @@
 The implementation driver (harness/drv_ref.cpp -> .build/hgv_ref) runs, per case, a REAL graph
 
     replay(selector), replay(a), replay(b)[, replay(c)] -> if_then_else | if_cmp -> REF<S>
-        -> [direct | through a nested_ pass-through | consumers inside a nested_ graph]
+        -> [direct | through a nested_ pass-through | consumers inside a nested_ graph fed with the
+            dereferenced value | consumers inside a nested_ graph fed with the reference itself]
         -> 1..3 counting consumers + the stdlib recorder reading through the reference
     record(a), record(b)[, record(c)]
 
@@ -43,7 +44,8 @@ THEOREMS = [
     "HgVerif.RefLink.cycle_sched_nil", "HgVerif.RefLink.applyDelta_keys_spec",
 ]
 CXX_TARGETS = ["hgv_ref"]
-RULE = ("graphs replay(sel),replay(a),replay(b)[,replay(c)] -> if_then_else|if_cmp -> [direct|nested pass|nested inner] "
+RULE = ("graphs replay(sel),replay(a),replay(b)[,replay(c)] -> if_then_else|if_cmp -> [direct|nested pass|nested inner|"
+        "nested inner taking the REF] "
         "-> 1-3 consumers + record, shapes TS<Int>/TSS<Int>/TSD<Int,TS<Int>>, histories of 3-14 cycles built from the "
         "named timing scenarios plus random cycles, and every history of length 3 (quick) / 4 (thorough) over "
         "{no selector, sel=a, sel=b} x {a ticks} x {b ticks}; a case is non-trivial when it contains a retarget to a "
@@ -190,7 +192,7 @@ def random_cycles(rng, letters, n, cur=None):
 def gen_case(rng, idx, maxlen):
     shape = rng.choice(["ts", "ts", "tss", "tss", "tss", "tsd", "tsd", "tsd"])
     ncons = rng.choice([1, 2, 2, 3, 3])
-    stage = rng.choice(["direct", "direct", "pass", "inner"])
+    stage = rng.choice(["direct", "direct", "direct", "pass", "inner", "innerref"])
     cmp = rng.random() < 0.25
     letters = "abc" if cmp else "ab"
     abstract = []
@@ -447,7 +449,7 @@ def walk(stream, case, out):
             if s.get("twice"):
                 bad.append("[twice] cycle %d: %s evaluated twice" % (cyc, name))
                 continue
-            start_sample = stage == "inner" and cyc == 0 and unchecked
+            start_sample = stage in ("inner", "innerref") and cyc == 0 and unchecked
             if not must:
                 if retarget and not new_valid and unchecked:
                     feats.add("unchecked-evaluated-on-retarget-to-invalid")
